@@ -212,6 +212,11 @@ class PathTemplateWriter:
 
             # insert the rotation stamp into the new filename.
             dst = os.path.join(src_dir, "{fname}.{stamp}.{ext}".format(**locals()))
+            # never overwrite a file that was already rotated within the same second
+            counter = 0
+            while os.path.exists(dst):
+                counter += 1
+                dst = os.path.join(src_dir, "{fname}.{stamp}-{counter}.{ext}".format(**locals()))
             log.info("RENAME {!r} -> {!r}".format(src, dst))
             os.rename(src, dst)
 
